@@ -14,9 +14,10 @@ Nothing is ever committed to /repo; /repo must be clean when `check` starts.
 """
 import difflib, json, os, random, re, subprocess, sys, time, shutil, concurrent.futures as cf
 
-ROOT = '/verif'
+ROOT = os.path.dirname(os.path.dirname(os.path.abspath(__file__)))
 REPO = '/repo'
-OUT = f'{ROOT}/work/mut'
+OUT = os.environ.get('MUT_OUT', f'{ROOT}/work/mut')
+RES = os.environ.get('MUT_RES', f'{ROOT}/mutation')
 FILES = {
     'parser/src/scanner.rs': 10, 'parser/src/parser.rs': 6, 'parser/src/input/str.rs': 2, 'parser/src/input/buffered.rs': 1,
     'parser/src/input.rs': 2, 'parser/src/char_traits.rs': 1,
@@ -168,7 +169,7 @@ def phase2():
     p1 = json.load(open(f'{OUT}/phase1.json'))
     if sh(f'git -C {REPO} diff --quiet')[0] != 0:
         sys.exit('repo dirty')
-    os.makedirs(f'{ROOT}/mutation/undetected', exist_ok=True)
+    os.makedirs(f'{RES}/undetected', exist_ok=True)
     rows = []
     resfile = f'{OUT}/phase2.json'
     done = json.load(open(resfile)) if os.path.exists(resfile) else {}
@@ -194,10 +195,10 @@ def phase2():
         json.dump(done, open(resfile, 'w'), indent=1)
         print(mid, '->', hit, sigs[:1], flush=True)
         if hit is None:
-            shutil.copy(f'{OUT}/{mid}.diff', f'{ROOT}/mutation/undetected/{mid}.diff')
+            shutil.copy(f'{OUT}/{mid}.diff', f'{RES}/undetected/{mid}.diff')
     from collections import Counter
     c = Counter(p1.values())
-    with open(f'{ROOT}/mutation/RESULTS.md', 'w') as f:
+    with open(f'{RES}/RESULTS.md', 'w') as f:
         f.write('# Mutation sampling (tools/mutate.py)\n\n')
         f.write(f'sampled mutants: {len(p1)}; ' + ', '.join(f'{k}: {v}' for k, v in sorted(c.items())) + '\n\n')
         det = [r for r in rows if r['detected_by']]
